@@ -192,6 +192,31 @@ pub fn run(ctx: &Ctx) -> Value {
             }
         } }
     }
+    // field replacement in a zone whose offset CHANGES (chrono::Local under a POSIX rule, read by a fresh thread): replacing a field means
+    // resolving the new wall clock in the zone again - the result is what from_local_datetime gives for that wall clock when it is unique
+    // (that lookup itself is C05's subject), and nothing in a gap or a fold
+    for tzv in ["CET-1CEST,M3.5.0,M10.5.0/3", "AEST-10AEDT,M10.1.0,M4.1.0/3"] {
+        std::env::set_var("TZ", tzv);
+        let h = std::thread::spawn(move || {
+            use chrono::{Local, TimeZone};
+            let mut out: Vec<Value> = Vec::new();
+            for t in [1_711_846_800i64, 1_729_990_800, 1_728_144_000, 1_712_419_200] { for k in [-50i64, -26, -3, -1, 0, 1, 3, 26, 50] {
+                let Some(u) = chrono::DateTime::from_timestamp(t + k * 3_600 + 1_800, 0).map(|d| d.naive_utc()) else { continue };
+                let Ok(z) = crate::guard(|| Local.from_utc_datetime(&u)) else { continue };
+                let Ok(wall) = crate::guard(|| z.naive_local()) else { continue };
+                let res = |r: Option<chrono::DateTime<Local>>| opt(r, |q| json!({"u": ndt(q.naive_utc()), "off": chrono::Offset::fix(q.offset()).local_minus_utc()}));
+                for (f, v) in [("hour", 0u32), ("hour", 1), ("hour", 2), ("hour", 3), ("hour", 5), ("hour", 23), ("minute", 0), ("day", 31), ("day", 27), ("day", 6), ("day", 7), ("month", 3), ("month", 10), ("month", 4)] {
+                    let new_wall = match f { "hour" => wall.with_hour(v), "minute" => wall.with_minute(v), "day" => wall.with_day(v), _ => wall.with_month(v) };
+                    out.push(ev("tzwith_routes", json!({"f": f, "u": ndt(u), "v": v, "zone": "Local with a DST rule"}), || json!({
+                        "a": res(match f { "hour" => z.with_hour(v), "minute" => z.with_minute(v), "day" => z.with_day(v), _ => z.with_month(v) }),
+                        "b": res(new_wall.and_then(|w| Local.from_local_datetime(&w).single()))})));
+                }
+            } }
+            out
+        });
+        for e in h.join().unwrap_or_default() { tz.emit(e); n_tz += 1; }
+        std::env::remove_var("TZ");
+    }
     tz.finish();
     tw.finish();
     json!({"events": tw.total + tz.total, "datetime_route_events": n_tz, "dates": dates.len(), "month_step_events": counts[0], "with_events": counts[1], "week_events": counts[2], "nth_events": counts[5]})
